@@ -121,7 +121,16 @@ func (ctx *context) ResolveAndCompile(pathname string, opts py.CompileOpts) (py.
 
 	tryPaths := defaultPaths
 	if opts.UseSysPaths {
-		tryPaths = ctx.Store().MustGetModule("sys").Globals["path"].(*py.List).Items
+		// sys.path is whatever the program last bound it to
+		sysPath, ok := ctx.Store().MustGetModule("sys").Globals["path"]
+		if !ok {
+			return py.CompileOut{}, py.ExceptionNewf(py.AttributeError, "module 'sys' has no attribute 'path'")
+		}
+		paths, err := py.SequenceTuple(sysPath)
+		if err != nil {
+			return py.CompileOut{}, err
+		}
+		tryPaths = paths
 	}
 
 	out := py.CompileOut{}
